@@ -1445,9 +1445,9 @@ func (e stepEngine) preflightInfinite(st *Stats) (*Violation, interface{}) {
 	// every construct that never ends on its own, entered through every route,
 	// with a buffered and an unbuffered channel: a panicking watchdog must end it
 	for si, shape := range infiniteShapes(txText(si0)) {
-		for _, entry := range []string{"run", "valuecall", "call", "eval"} {
+		for ei, entry := range []string{"run", "valuecall", "call", "eval"} {
 			for _, capn := range []int{1, 0} {
-				if (si+len(entry)+capn)%2 == 1 && curTier != "thorough" {
+				if (si+ei+capn)%2 == 1 && curTier != "thorough" {
 					continue // quick: half of the (route, channel) combinations per construct
 				}
 				c := &StepCase{Engine: "stepsim", Mode: "seeded", ClassB: true, ChanCap: capn, Entry: entry, Body: "S.n++;\n" + shape + "\n",
@@ -1491,8 +1491,8 @@ func stepConstructs() []string {
 
 func (e stepEngine) preflightConstructs(st *Stats) (*Violation, interface{}) {
 	for ci, body := range stepConstructs() {
-		for _, entry := range []string{"run", "valuecall"} {
-			if (ci+len(entry))%2 == 1 && curTier != "thorough" {
+		for ei, entry := range []string{"run", "valuecall"} {
+			if (ci+ei)%2 == 1 && curTier != "thorough" {
 				continue // quick: one entry route per construct
 			}
 			c := &StepCase{Engine: "stepsim", Mode: "exhaustive", ChanCap: 1, Entry: entry, Debugger: true, Body: "var t;\n" + body + "\n", Seed: uint64(ci + 1)}
